@@ -155,6 +155,14 @@ func genClientFields(r *core.Rand, gate bool, id string) ([]rig.Field, string) {
 	// nominates further names: Proxy-Authorization, Authorization, Proxy-Connection, Keep-Alive, TE, the standard
 	// hop-by-hop set, custom names; the nominated fields are present (several values, odd spellings)
 	upgrade := r.Chance(30)
+	// otherwise, in nearly half of the requests, the shared Connection-field dimension: the shape of the Connection field
+	// (absent, a lone keep-alive / close as most clients send it, other lone options, several options, several lines,
+	// empty) crossed with the presence of each field of the fixed hop-by-hop list, next to the credential shapes above
+	connShape := !upgrade && r.Chance(45)
+	if connShape {
+		fs = append(fs, reqmodel.GenConnShape(r, reqmodel.ConnShapeOpts{ID: id, AllowClose: true})...)
+		labels = append(labels, "conn-shapes")
+	}
 	if upgrade {
 		lines, tokens := reqmodel.GenUpgradeNominating(r, id, fs)
 		if r.Chance(35) && !hasTokenFold(tokens, "Proxy-Authorization") {
@@ -170,7 +178,7 @@ func genClientFields(r *core.Rand, gate bool, id string) ([]rig.Field, string) {
 		}
 	}
 	core.Shuffle(r, fs)
-	if upgrade && gate {
+	if (upgrade || connShape) && gate {
 		// the credential this proxy checks is the FIRST Proxy-Authorization line
 		firstPA := -1
 		for i, f := range fs {
@@ -187,6 +195,29 @@ func genClientFields(r *core.Rand, gate bool, id string) ([]rig.Field, string) {
 		}
 	}
 	return fs, strings.Join(labels, ",")
+}
+
+// frame: a request that announces a chunked body sends one (empty, no trailer section); a CONNECT or HEAD request
+// announces none; a POST without one says Content-Length: 0
+func (q *creq) frame() {
+	chunked := false
+	out := make([]rig.Field, 0, len(q.Fields)+1)
+	for _, f := range q.Fields {
+		if strings.EqualFold(f.Name, "Transfer-Encoding") {
+			if q.Kind == "connect" || q.Method == "HEAD" || chunked {
+				continue
+			}
+			chunked = true
+		}
+		out = append(out, f)
+	}
+	q.Fields = out
+	switch {
+	case chunked:
+		q.Tail = "0\r\n\r\n"
+	case q.Method == "POST":
+		q.Fields = append(q.Fields, rig.Field{Name: "Content-Length", Value: "0"})
+	}
 }
 
 func hasTokenFold(tokens []string, name string) bool {
@@ -377,9 +408,7 @@ func genFamilyCase(r *core.Rand) *ccase {
 			}
 			q.Absolute = r.Chance(40)
 		}
-		if q.Method == "POST" {
-			q.Fields = append(q.Fields, rig.Field{Name: "Content-Length", Value: "0"})
-		}
+		q.frame()
 		cc.Requests = append(cc.Requests, q)
 	}
 	return cc
@@ -413,9 +442,7 @@ func genCase(r *core.Rand) *ccase {
 			q.Authority = core.Pick(r, []string{"origin.test", "origin.test:80", "origin.test:8080", "other.test", "other.test:80"})
 			q.Absolute = r.Chance(40)
 		}
-		if q.Method == "POST" {
-			q.Fields = append(q.Fields, rig.Field{Name: "Content-Length", Value: "0"})
-		}
+		q.frame()
 		cc.Requests = append(cc.Requests, q)
 	}
 	return cc
